@@ -84,6 +84,7 @@ def run(pid):
         q = dict(s, id=k)
         q["class"] = "md5-" + s["md5"]
         mplans.append(q)
+    mplans += P.directed_malformed(k + 1000)
     mg = generate(wd, mplans, "mut", k=8)
     byp = {p["id"]: p for p in mplans}
     for g in mg:
